@@ -61,8 +61,12 @@ def case_strategy(backend):
                 else:
                     sq2, ms2 = g.seq("e", main_only=True)
                     cols.append(f"{sq2}.Select(lambda v: v.{draw(st.sampled_from(ms2))}() + {one})")
-        g.want = draw(st.sampled_from(["unguarded", "unguarded", None]))
+        g.want = draw(st.sampled_from(["unguarded", "unguarded", None, "guarded", "guarded"]))
         first = g.first_template("e")[0]
+        if draw(st.booleans()):
+            # ... as the LEFT operand of further arithmetic: what follows the partial operation in the same column has to be coded where the
+            # column is complete, not where the partial operation left the translator
+            first = f"({first} {draw(st.sampled_from(['/ 1000.0', '* 2 + 1', '- 0.5']))})"
         cols.insert(draw(st.integers(0, len(cols))), first)
         text = f"Select({dataset_text(sch)}, lambda e: ({', '.join(cols)}))"
         q = Query(text, backend, [], list(g.uses), set(g.labels) | {"vector+partial-row"}, 3)
